@@ -389,6 +389,45 @@ func (x *e6) chanScenario() []string {
 		})
 		return desc
 	}
+	if ch.Bool("cfg", 0.25) {
+		// a semaphore that holds its token is closed: Make(1), Send, Close; the
+		// channel must be closed afterwards (the buffered token may still be read
+		// first), whatever observers do meanwhile
+		n := ch.Pick("cfg", 3)
+		desc = append(desc, fmt.Sprintf("chan close-with-token scenario getters=%d", n))
+		x.rt.Spawn("owner", func() {
+			verifsim.Yield(verifsim.ClassApp, "make")
+			c.Make(1)
+			// observers only exist once the capacity is fixed (whoever touches a lazy
+			// channel first decides its capacity)
+			for i := 0; i < n; i++ {
+				x.rt.Spawn(fmt.Sprintf("getter%d", i), func() {
+					verifsim.Yield(verifsim.ClassApp, "get")
+					got = append(got, c.Get())
+				})
+			}
+			verifsim.Yield(verifsim.ClassApp, "send")
+			c.Send()
+			verifsim.Yield(verifsim.ClassApp, "close")
+			c.Close()
+			closeReturned = true
+			g := c.Get()
+			closed := false
+			for i := 0; i < 3 && !closed; i++ {
+				select {
+				case _, ok := <-g:
+					closed = !ok
+				default:
+					i = 3
+				}
+			}
+			if !closed {
+				x.viol("chan", "Close of a channel that holds a buffered element returned but the channel is not closed", "")
+			}
+		})
+		x.d.AfterStep = nil
+		return append(desc, "expect-all-exit")
+	}
 	// semaphore scenario: Make(cap), matched Send/Recv pairs, Full probes
 	capn := ch.Pick("cfg", 3)
 	pairs := 1 + ch.Pick("cfg", 3)
